@@ -55,8 +55,12 @@ def h_rendezvous(ctx, plan):
   registry = set()
   waiters = {}          # wid -> (deps, behaviour, chained component)
   sinks = []
+  class EmptyComp(Comp):
+    # a component that is *falsy* when it is registered (a container that is still empty, like pox.topology's Topology or the dict that
+    # pox.datapaths registers): it is registered all the same
+    def __len__(self): return 0
   def do_register(name):
-    core.register(name, Comp())
+    core.register(name, EmptyComp() if name == NAMES[1] else Comp())
     registry.add(name)
   wid = 0
   for i, op in enumerate(plan):
